@@ -470,16 +470,7 @@ PROPS["C02"] = {
             "the pty harness cuts the output where the Event::Any handler runs (marker written from inside the handler)",
             "validators' messages, list completion, incremental-search prompts, the external printer, tabs and control characters in the "
             "text are outside this check (not in the property's quantifier, or other properties)"],
-        "unproved": ["C02_lbFaithful_statement (refuted: C02_lbFaithful_counterexample). 19 of its 21 obligations are proved for every segmenter "
-                     "and Unicode data (C02_lbFaithful_partial: the eleven motions, kill for every Movement, transpose_chars, edit_word, "
-                     "transpose_words, indent, yank, delete, Changeset::undo); the two about a paste that LineBuffer::yank refuses (YankFaithful) "
-                     "are false on the current code: yank_pop removes the previous paste before yank refuses the new text (F-C02-yank-pop-refused, "
-                     "C02_yankPop_counterexample; true when the text is not empty and fits: C02_yankPop_faithful_of_fits), and the step back of "
-                     "edit_yank(Anchor::After) after a refused paste is not the inverse of the step forward when the cursor was inside a cluster "
-                     "(F-C02-yank-after-refused, C02_yankAfter_counterexample; true when the paste cannot be refused or for a stable segmenter "
-                     "with the cursor on a cluster boundary: C02_yankAfter_faithful_of_fits / _of_stable). C02_editor_log_coherent' / "
-                     "C02_editor_shows' take only YankFaithful as hypothesis - which is refuted (not_yankFaithful), so they say nothing until the "
-                     "two defects are repaired"],
+        "unproved": [],
         "level_text": "Lean theorems, for every lawful segmenter, width table and terminal width >= 2, over prompts/lines/hints made of "
                       "line breaks and printable clusters of width 0/1/2: the grapheme loop of calculate_position simulates the cursor "
                       "of a VT100-style terminal (deferred wrap, early wrap of wide characters, zero-width joins); positions computed "
@@ -506,10 +497,11 @@ PROPS["C02"] = {
                       "at its logging site and no replay step panics. C02_editor_log_coherent / C02_editor_shows conclude, for logs whose "
                       "texts are of the quantified kind and cursors on char boundaries (LogFine), that the model's log is coherent and that "
                       "at every callback the emulated terminal shows the prompt on display (the own one, or inside an incremental search the "
-                      "search prompt) + line + cursor - GIVEN LBFaithful (line-buffer operations that report no change changed nothing): "
-                      "19 of its 21 obligations are proved (Rl/Lemmas/LBFaithful.lean, C02_lbFaithful_partial), the two about a refused paste "
-                      "(yank_pop, paste after the cursor) are FALSE on the current code (two findings), so the primed corollaries still carry the "
-                      "refuted hypothesis YankFaithful. Every command of execute (pres_execute), listing and circular completion and - since "
+                      "search prompt) + line + cursor - with no hypothesis about the line buffer: LBFaithful (operations that report no change "
+                      "changed nothing: 11 motions, kill for every Movement, transpose_chars, edit_word, transpose_words, indent, yank, yank_pop, "
+                      "delete, Changeset::undo) is the theorem C02_lbFaithful (Rl/Lemmas/LBFaithful.lean) since the repairs of D44 (yank_pop) and "
+                      "D45 (edit_yank). Remaining hypotheses of the two final theorems: cols >= 2, C02_Plain prompt, control characters of width 0, "
+                      "LogFine of the produced log. Every command of execute (pres_execute), listing and circular completion and - since "
                       "the repair of D42 - incremental search (est_searchLoop) are lifted. "
                       "The differential check covers the real Editor::readline "
                       "on a pty at widths 2..40 and 80, its output interpreted by the Lean terminal emulator at every Event::Any "
@@ -533,7 +525,8 @@ PROPS["C03"] = {
                 "the capacity-sensitive ops (update/insert/yank/yank_pop/transpose_chars/edit_word) with capacities {len-1,len,len+1,len+3}; "
                 "structured 3- and 5-line buffers; random multi-line buffers (alphabet adds tab, CR, ZWJ, sharp-s, U+3000, NBSP) with op "
                 "sequences <=30 in sequence mode (notifications compose, capacity growth tracked). Oracle: the five C03 conjuncts "
-                "evaluated in Lean on the implementation's own observations.",
+                "evaluated in Lean on the implementation's own observations, plus: an operation that answers 'nothing happened' "
+                "(false / None) left text and cursor alone (said-nothing-but-changed; what caught D44). corpus/C03.txt: D44/D45 regression lines.",
         "exhaustive": {"quick": True, "thorough": True},
         "trusted_base": [
             "unicode-segmentation modelled by Rl.uaxSeg over the gcb column of the charinfo header (agreement is part of this correspondence on the alphabet)",
@@ -550,7 +543,7 @@ PROPS["C03"] = {
                       "(every argument value incl. counts 0 and 65535, every word definition/anchor/char search/movement): no panic from a "
                       "well-formed state + cursor on a character boundary, for EVERY public method incl. indent/dedent (C03_indent_total_wf, "
                       "amount <= 255 = u8; per-line loop invariant buf = X ++ joinNl lines ++ Z) except insert_str; capacity clause for "
-                      "insert/yank/update; assembled in C03_op_total_wf_replay_partial (every op but insert_str) and "
+                      "insert/yank/update, and for yank_pop after the repair of D44 (C03_capacity_yankPop: refuses before anything is removed, or the result fits); assembled in C03_op_total_wf_replay_partial (every op but insert_str) and "
                       "C03_op_total_wf_replay_all_partial (every op, sole extra hypothesis: insert_str's index is not before the cursor). "
                       "insert_str with an index before the cursor is a known finding (C03_insertStr_counterexample).",
         "unproved": ["C03_op_total_wf_replay_statement (full; false for insert_str only: C03_insertStr_counterexample; proved for every other op and for insert_str at/after the cursor)"],
